@@ -62,6 +62,13 @@ def affine_sub(chk, rng, aff, rows, wid, tname, fixed=None, extra=None,
         u, v = rng.choice(units), rng.choice(units)
         x = rand_fraction(rng, small=rng.random() < 0.7)
         want_fixed = None
+        if rng.random() < 0.12:
+            # the amount whose image in v is exactly zero (a zero result is
+            # a result, not "no converter applies")
+            c0 = conv_model(aff, rows, u, v, F(0))
+            c1 = conv_model(aff, rows, u, v, F(1))
+            if c0 is not None and c1 != c0:
+                x = -c0 / (c1 - c0)
     t = rng.choice(units)
     y = rand_fraction(rng, small=True)
     e, kind = enc_amount(rng, x, ("D", "F", "int"))
@@ -76,6 +83,10 @@ def affine_sub(chk, rng, aff, rows, wid, tname, fixed=None, extra=None,
     steps.append({"k": "eqr", "e": OP("==", V("q"), V("r"))})
     steps.append({"k": "add", "e": OP("+", V("q"), V("o"))})
     steps.append({"k": "sub", "e": OP("-", V("q"), V("o"))})
+    # the amount-and-symbol string with the other unit given: the same
+    # conversion, or the same refusal
+    steps.append({"k": "ps", "e": ["c", ["a", U(u), "qty_cls"],
+                                   [["un", "str", V("q")], U(v)]]})
     info = dict(world=wid, u=u, v=v, t=t, x=str(x), y=str(y))
     if extra:
         info.update(extra)
@@ -100,6 +111,9 @@ def affine_sub(chk, rng, aff, rows, wid, tname, fixed=None, extra=None,
             if not is_exc(r, "UnitConversionError"):
                 bad.append("no applicable row: expected UnitConversionError, "
                            "got %s" % brief(r))
+            if not is_exc(obs.get("ps"), "UnitConversionError"):
+                bad.append("no applicable row: parsing '%s %s' with unit %s "
+                           "gives %s" % (xs, u, v, brief(obs.get("ps"))))
             for op in OPS:
                 c = obs.get(op, {})
                 if op == "==":
@@ -124,6 +138,13 @@ def affine_sub(chk, rng, aff, rows, wid, tname, fixed=None, extra=None,
                                "offset is %s" % (val(r), v, want))
                 if r["at"] not in EXACT_TYPES:
                     bad.append("amount held as %s" % r["at"])
+                if want == 0 and u != v:
+                    chk.count("conversions whose result is zero")
+                ps = obs.get("ps", {})
+                if ps.get("k") != "Q" or ps["u"] != v or val(ps) != want:
+                    bad.append("parsing '%s %s' with unit %s gives %s, the "
+                               "conversion %s %s" % (xs, u, v, brief(ps),
+                                                     want, v))
                 if want_fixed is not None:
                     chk.count("fixed points")
                     if val(r) != want_fixed:
@@ -290,7 +311,8 @@ def run(chk, R, tier, seed):
               "sums and differences across units",
               "conversions with both directions tabulated inconsistently "
               "(forward row must win)",
-              "worlds", "tables registered on the type|2"):
+              "worlds", "tables registered on the type|2",
+              "conversions whose result is zero"):
         chk.require(c)
     wrap = lambda jd: (lambda obs, rec, case: jd(obs))      # noqa: E731
     rows = {(u, v) for u in TEMP for v in TEMP if u != v}
